@@ -4,6 +4,7 @@ import (
 	"bufio"
 	"context"
 	"encoding/binary"
+	"errors"
 	"io"
 	"io/ioutil"
 	"log"
@@ -297,6 +298,10 @@ func readmsg(rd io.Reader, p []byte) (n int, err error) {
 	}
 
 	n += binary.Size(msize)
+	if msize < channelMessageHeaderSize {
+		// the size counts its own four bytes, so this cannot be a frame.
+		return n, errors.New("p9p: invalid frame size")
+	}
 	mbody := int(msize) - 4
 
 	if mbody < len(p) {
